@@ -63,8 +63,9 @@ CLAIMED = {
         text='Block level: for ~100 control-file shapes (every block type, sub-block types B C S T W, sublength lists with b c d h m n prefixes, * multipliers, L loops, M, ignored blocks, statements cut short by a sub-block end, '
              'code fragments with pinned opcodes incl. variants and prefixes) over a window of symbolic memory, the real CtlParser and the real snaskool.Disassembly build the entries; per statement the skool2bin rule (@bytes list if present, '
              'else the real assembler) is applied in file order and z3 shows every address of every non-ignored block gets back its original byte, for hex/decimal, case, DefbSize/DefmSize/DefwSize and Opcodes settings. '
-             'Together with C02 (every instruction and data statement, every operand value/base/address) this covers the arithmetic of the property.',
-        note='Outside: the textual skool file itself (SkoolWriter -> text -> skool2bin line reader, line width), RST-argument handlers, whole 64K images, ctl text beyond the corpus. Character-based shapes use 2 symbolic bytes (the rest fixed to '
+             'Textual route: for the same corpus the real SkoolWriter writes the skool file (numbers are numeral tokens), the real skool2bin BinWriter reads that text and assembles it, and z3 shows its image equals the memory at every address of a non-ignored block '
+             '(known finding: an ignored block in the middle leaves a gap that skool2bin closes). Together with C02 (every instruction and data statement, every operand value/base/address) this covers the arithmetic of the property.',
+        note='On the textual route jump operands are concrete and symbolic words are hashed by identity in skool2bin\'s address dictionary (taken not to equal an instruction address). Outside: line width, RST-argument handlers, whole 64K images, ctl text beyond the corpus. Character-based shapes use 2 symbolic bytes (the rest fixed to '
              'characters that exercise escaping); DEFS fill value ranges over 9 representative values.',
         design='4 (C01)', technique=TECH + '; corpus of control-file shapes over symbolic memory'),
     'C11': dict(
